@@ -26,7 +26,7 @@ func storeCasmHashMetadata(
 	isV2Protocol := ver.GreaterThanEqual(core.Ver0_14_1)
 
 	if isV2Protocol {
-		return storeCasmHashMetadataV2(reader, writer, blockNumber, stateUpdate)
+		return storeCasmHashMetadataV2(reader, writer, blockNumber, stateUpdate, newClasses)
 	}
 
 	return storeCasmHashMetadataV1(writer, blockNumber, stateUpdate, newClasses)
@@ -39,8 +39,27 @@ func storeCasmHashMetadataV2(
 	writer db.KeyValueWriter,
 	blockNumber uint64,
 	stateUpdate *core.StateUpdate,
+	newClasses map[felt.Felt]core.ClassDefinition,
 ) error {
 	for sierraClassHash, casmHash := range stateUpdate.StateDiff.DeclaredV1Classes {
+		// Like storeCasmHashMetadataV1: a declared class must come with its Sierra definition.
+		// State.Update leaves the class trie untouched for a declared class whose definition is
+		// missing, so without this check such an entry would change neither the state root nor
+		// anything else Store verifies, and would overwrite the metadata of a known class.
+		classDef, ok := newClasses[sierraClassHash]
+		if !ok {
+			return fmt.Errorf("class %s not available in newClasses at block %d",
+				sierraClassHash.String(),
+				blockNumber,
+			)
+		}
+		if _, ok := classDef.(*core.SierraClass); !ok {
+			return fmt.Errorf("class %s must be a SierraClass at block %d",
+				sierraClassHash.String(),
+				blockNumber,
+			)
+		}
+
 		metadata := core.NewCasmHashMetadataDeclaredV2(
 			blockNumber,
 			(*felt.CasmClassHash)(casmHash),
